@@ -2,14 +2,6 @@
 From TV Require Import Model.Segmenter Spec.UAX29 Proofs.SegCommon.
 Open Scope Z_scope.
 
-(* what the tables guarantee about one rune (checked on every driver run for the runes used, and for all
-   code points by the table theorems of C20): pictographic runes have no grapheme class, and CR / LF are
-   exactly the runes of their grapheme classes *)
-Definition obs_wf_g (o : obs) : bool :=
-  (negb (o_pic o) || gbc_beq (o_gb o) GB_None)
-  && Bool.eqb (o_cr o) (gbc_beq (o_gb o) GB_CR)
-  && Bool.eqb (o_lf o) (gbc_beq (o_gb o) GB_LF).
-
 Record gst := mkG { gs_last : obs; gs_gb : gbc; gs_ri : bool; gs_picto : pictoSeq }.
 Definition gproj (cr : cursor) : gst := mkG (c_r cr) (c_grapheme cr) (c_gRIOdd cr) (c_pictoSequence cr).
 Definition gstep (s : gst) (r next : obs) : gst * bool :=
